@@ -198,6 +198,47 @@ def expected : List (String × List Entry) := [
     ⟨"nilcheck:descriptor == nil", .sampled "iamclient.PresentationDefinition"⟩,
     ⟨"range:requirements", .sampled "iamclient.PresentationDefinition"⟩,
     ⟨"nilcheck:requirement == nil", .sampled "iamclient.PresentationDefinition"⟩]),
+  ("vcr/pe/util.go:ParseEnvelope", [
+    ⟨"nilcheck:jsonArray != nil", .sampled "pe.ParseEnvelope (JWT claim combinations) / iam.HandleAuthorizeResponse"⟩,
+    ⟨"deref:*presentation", .sampled "pe.ParseEnvelope (JWT claim combinations) / iam.HandleAuthorizeResponse"⟩]),
+  ("vcr/pe/util.go:parseJSONArrayEnvelope", [
+    ⟨"range:arr", .sampled "pe.ParseEnvelope (JWT claim combinations) / iam.HandleAuthorizeResponse"⟩,
+    ⟨"deref:*presentation", .sampled "pe.ParseEnvelope (JWT claim combinations) / iam.HandleAuthorizeResponse"⟩]),
+  ("vcr/pe/util.go:parseJSONObjectOrStringEnvelope", [
+    ⟨"index:token.PrivateClaims()[\"vp\"]", .sampled "pe.ParseEnvelope (JWT claim combinations) / iam.HandleAuthorizeResponse"⟩,
+    ⟨"assertok:token.PrivateClaims()[\"vp\"].(map[string]interface{})", .sampled "pe.ParseEnvelope (JWT claim combinations) / iam.HandleAuthorizeResponse"⟩,
+    ⟨"range:innerVPAsMap", .sampled "pe.ParseEnvelope (JWT claim combinations) / iam.HandleAuthorizeResponse"⟩,
+    ⟨"indexw:asMap[key]", .sampled "pe.ParseEnvelope (JWT claim combinations) / iam.HandleAuthorizeResponse"⟩,
+    ⟨"indexw:asMap[\"id\"]", .sampled "pe.ParseEnvelope (JWT claim combinations) / iam.HandleAuthorizeResponse"⟩]),
+  ("vcr/pe/util.go:tryParseJSONArray", [
+    ⟨"assertok:asInterface.([]interface{})", .sampled "pe.ParseEnvelope (JWT claim combinations) / iam.HandleAuthorizeResponse"⟩]),
+  ("network/transport/v2/conversation.go:conversationManager.check", [
+    ⟨"defer:cMan.mutex.RUnlock", .sampled "v2.envelope (reply-type-confusion matrix: every request type × every reply handler, live conversation id)"⟩,
+    ⟨"index:cMan.conversations[cid.String()]", .sampled "v2.envelope (reply-type-confusion matrix: every request type × every reply handler, live conversation id)"⟩]),
+  ("network/transport/v2/conversation.go:Envelope_TransactionListQuery.checkResponse", [
+    ⟨"assertok:other.(*Envelope_TransactionList)", .sampled "v2.envelope (reply-type-confusion matrix: every request type × every reply handler, live conversation id)"⟩,
+    ⟨"range:envelope.TransactionListQuery.Refs", .sampled "v2.envelope (reply-type-confusion matrix: every request type × every reply handler, live conversation id)"⟩,
+    ⟨"indexw:refs[ref]", .sampled "v2.envelope (reply-type-confusion matrix: every request type × every reply handler, live conversation id)"⟩,
+    ⟨"range:txs", .sampled "v2.envelope (reply-type-confusion matrix: every request type × every reply handler, live conversation id)"⟩,
+    ⟨"index:refs[tx.Ref()]", .sampled "v2.envelope (reply-type-confusion matrix: every request type × every reply handler, live conversation id)"⟩]),
+  ("network/transport/v2/conversation.go:Envelope_TransactionRangeQuery.checkResponse", [
+    ⟨"assertok:other.(*Envelope_TransactionList)", .sampled "v2.envelope (reply-type-confusion matrix: every request type × every reply handler, live conversation id)"⟩,
+    ⟨"range:txs", .sampled "v2.envelope (reply-type-confusion matrix: every request type × every reply handler, live conversation id)"⟩]),
+  ("network/transport/v2/conversation.go:Envelope_State.checkResponse", [
+    ⟨"assertok:other.(*Envelope_TransactionSet)", .sampled "v2.envelope (reply-type-confusion matrix: every request type × every reply handler, live conversation id)"⟩]),
+  ("network/transport/v2/conversation.go:Envelope_TransactionList.parseTransactions", [
+    ⟨"index:data[dataKey]", .sampled "v2.envelope (reply-type-confusion matrix: every request type × every reply handler, live conversation id)"⟩,
+    ⟨"assertok:data[dataKey].([]dag.Transaction)", .sampled "v2.envelope (reply-type-confusion matrix: every request type × every reply handler, live conversation id)"⟩,
+    ⟨"range:envelope.TransactionList.Transactions", .sampled "v2.envelope (reply-type-confusion matrix: every request type × every reply handler, live conversation id)"⟩,
+    ⟨"indexw:data[dataKey]", .sampled "v2.envelope (reply-type-confusion matrix: every request type × every reply handler, live conversation id)"⟩]),
+  ("network/transport/v2/transactionlist_handler.go:protocol.handleTransactionList", [
+    ⟨"assert:envelope.Message.(*Envelope_TransactionList)", .sampled "v2.envelope"⟩,
+    ⟨"range:txs", .sampled "v2.envelope"⟩,
+    ⟨"nilcheck:ctx.Err() != nil", .sampled "v2.envelope"⟩,
+    ⟨"lencheck:len(tx.PAL()) == 0", .sampled "v2.envelope"⟩,
+    ⟨"lencheck:len(msg.Transactions[i].Payload) == 0", .sampled "v2.envelope"⟩,
+    ⟨"index:msg.Transactions[i]", .sampled "v2.envelope"⟩,
+    ⟨"index:msg.Transactions[i]", .sampled "v2.envelope"⟩]),
   ("vcr/pe/presentation_definition.go:PresentationDefinition.Match", [
     ⟨"guardcall:presentationDefinition.checkNoNilEntries", .sampled "pe.match+validate (parallel-array invariant of Match; the PE model is C12)"⟩,
     ⟨"lencheck:len(presentationDefinition.SubmissionRequirements) > 0", .sampled "pe.match+validate (parallel-array invariant of Match; the PE model is C12)"⟩]),
